@@ -91,6 +91,48 @@ func (pl *ProcessList) EndQuery(ctx *Context) {
 	}
 }
 
+// Q3d: ends whatever query the connection is running now, whichever query the context belongs to.
+func (pl *ProcessList) EndAny(ctx *Context) {
+	pl.mu.Lock()
+	defer pl.mu.Unlock()
+	id := ctx.Session.ID()
+	delete(pl.byQueryPid, ctx.Pid())
+	p := pl.procs[id]
+	if p != nil && p.QueryPid != 0 {
+		StatusVariables.IncrementGlobal("Threads_running", -1)
+		p.Kill()
+		p.Kill = nil
+		p.QueryPid = 0
+	}
+}
+
+// Q3e: the process effects are guarded, but the pid→connection entry removed is the current query's.
+func (pl *ProcessList) EndKeyed(ctx *Context) {
+	pl.mu.Lock()
+	defer pl.mu.Unlock()
+	id := ctx.Session.ID()
+	pid := ctx.Pid()
+	p := pl.procs[id]
+	if p == nil {
+		return
+	}
+	delete(pl.byQueryPid, p.QueryPid)
+	if p.QueryPid == pid {
+		StatusVariables.IncrementGlobal("Threads_running", -1)
+		p.Kill()
+		p.Kill = nil
+		p.QueryPid = 0
+	}
+}
+
+// Q3f: by-pid entry point that does not go through byQueryPid.
+func (pl *ProcessList) Touch(pid uint64) bool {
+	pl.mu.Lock()
+	defer pl.mu.Unlock()
+	p := pl.procs[uint32(pid)]
+	return p != nil
+}
+
 // Q3b: cancels everybody.
 func (pl *ProcessList) KillAll() {
 	pl.mu.Lock()
